@@ -87,4 +87,10 @@ PROPERTIES = {
         explanation="schema generator functions against the constructor-call AST that rebuilds the object; end-to-end round trip as bounded stand-in",
         assumptions=["graphql-core constructors: keyword -> attribute; ast.Constant printed by repr and read back equal (str/int/float/bool/None/list/dict)"],
     ),
+    "C14": dict(
+        modules=["contracts.c14_builder"],
+        bounded=[_bounded.lazy("contracts.e2e_builder", "bounded_builder")],
+        explanation="run-time builder: fresh variable names, argument/field-name nodes under contract; whole documents by an end-to-end bounded stand-in",
+        assumptions=["termination of _format_variable_name's renaming loop is not proved"],
+    ),
 }
